@@ -440,7 +440,7 @@ theorem removeExt_marked_plain (b : Str) (hb : b ≠ []) (n : Nat) :
     removeExt (b ++ '.' :: partExt n) = some b := by
   have hs := splitExt_append_dot b (partExt n) hb (dot_not_mem_partExt n)
     (Or.inr (partExt_ne_nil n))
-  simp only [removeExt, hs, partPrefix_isPrefixOf_partExt, if_true]
+  simp only [removeExt, hs, isPartMarker_partExt, if_true]
 
 /-- `b.partN.pna` gives back `b.pna`, unless `b` is `.` -/
 theorem removeExt_marked_pna (b e : Str) (hb : b ≠ []) (hb' : b ≠ ['.'])
@@ -449,8 +449,9 @@ theorem removeExt_marked_pna (b e : Str) (hb : b ≠ []) (hb' : b ≠ ['.'])
   have hs1 := splitExt_marked b hb n
   have hs := splitExt_marked_pna b e he n
   have hw := withExtension_ext b (partExt n) e hb hb' (dot_not_mem_partExt n)
-  have hp := partPrefix_not_prefix_of_pna he
-  have hq := partPrefix_isPrefixOf_partExt n
+  have hp0 := partPrefix_not_prefix_of_pna he
+  have hp : isPartMarker e = false := by simp [isPartMarker, hp0]
+  have hq := isPartMarker_partExt n
   unfold removeExt
   rw [hs]
   simp only [hp, hs1, hq, if_true, hw]
